@@ -3,6 +3,7 @@ from __future__ import annotations
 
 import ast
 
+from vlib import h_c18 as _h
 from vlib import truthy
 from vlib.cfg import CFG
 from vlib.core import AnalysisError, Repo, Report, norm, own_nodes
@@ -326,18 +327,26 @@ def run(repo: Repo, rep: Report) -> None:
                 rep.ob("C18.e-wildcards-expanded", mod, where, ap, okg,
                        "concrete entry %s follows the presence guard" % entry[:3] if okg else
                        "concrete-branch log entry %s is not dominated by a presence guard that returns on a no-op" % entry[:3], node=ap)
-            # ctx id provenance (h): entry[3] is <ctx>.identifier guarded against None, or the loop's context .identifier
+            # ctx id provenance (h): the fourth component is the identifier of a context: <ctx>.identifier of the context the enumeration reports, or the identifier
+            # of the context passed on, read where that context is known not to be None.  A local stands for what is assigned to it (every assignment, transitively).
             ctx_expr = entry[3]
-            okc = False
-            if ctx_expr.endswith(".identifier"):
-                okc = True
-            else:
-                for n in own_nodes(m):
-                    if isinstance(n, ast.Assign) and isinstance(n.targets[0], ast.Name) and n.targets[0].id == ctx_expr:
-                        if ".identifier" in norm(n.value) and "is not None" in norm(n.value):
-                            okc = True
+            ctx_node = ap.args[0].elts[3]
+            leaves = _h.leaf_definitions(m, ctx_node)
+            badl = []
+            for lf in leaves:
+                if isinstance(lf, ast.Attribute) and lf.attr == "identifier":
+                    continue
+                good, total = _h.guarded_identifier_reads(lf)
+                if not (total and good == total):
+                    badl.append(norm(lf)[:60])
+            okc = not badl
             rep.ob("C18.h-logged-quad-is-mutated-quad", mod, where, "logged context id %s" % ctx_expr, okc,
-                   "derived from the context's identifier" if okc else "logged context id %s is not the identifier of the context passed on" % ctx_expr, node=ap)
+                   "derived from the context's identifier" if okc else "logged context id %s is not the identifier of the context passed on%s" % (
+                       ctx_expr, "" if badl == [ctx_expr] else " (it can be %s)" % "; ".join(badl)), node=ap)
+        if not appends:
+            # the obligations above are per undo entry: a method in which no entry is written has none, and must not pass for that reason
+            rep.ob("C18.h-logged-quad-is-mutated-quad", mod, "%s.%s" % (CLS, mname), "undo entries of %s" % mname, False,
+                   "no undo entry is written in %s itself: the quad that is logged cannot be related to the quad that is mutated" % mname, node=m)
         # guard precedes all log updates on the concrete branch / in add
         for gd in guards:
             gn = g.by_ast[id(gd)]
@@ -384,31 +393,50 @@ def run(repo: Repo, rep: Report) -> None:
            "5-component unpack matches the logged layout" if len(tg) == 5 else "rollback unpacks %d components, entries have 5" % len(tg), node=loop)
     if len(tg) == 5:
         opvar = tg[4]
+        # the wrapped-store attribute is bound once (in __init__): a local that only ever holds self.<wrapped> denotes the wrapped store
+        stable = not any(
+            isinstance(n, (ast.Assign, ast.AnnAssign, ast.AugAssign, ast.Delete, ast.For, ast.With, ast.NamedExpr)) and any(
+                _h.self_attr(x, wrapped) and isinstance(x.ctx, (ast.Store, ast.Del)) for x in ast.walk(n))
+            for mn_, m_ in methods.items() if mn_ != "__init__" for n in own_nodes(m_, include_nested=True))
+        callees = _h.Callees(mod, rb, wrapped, opvar, stable)
 
-        def dispatch(stmts: list[ast.stmt], tag: str) -> list[ast.Call]:
-            out: list[ast.Call] = []
+        def mutator_calls(s: ast.AST, tag: str) -> list[tuple[ast.Call, str]]:
+            """calls in s that, for an entry with this tag, are calls of a mutator of the wrapped store: by what the called expression can evaluate to
+            (a method of the wrapped store or of a local alias of it, the arm of a conditional expression that the tag selects, a local holding one of these,
+            a row of a literal table, getattr(wrapped, tag)), not by how the call is spelt"""
+            out: list[tuple[ast.Call, str]] = []
+            for c in ast.walk(s):
+                if not isinstance(c, ast.Call) or _h.excluded_by_path(mod, s, c, opvar, tag):
+                    continue
+                for nm in callees.of(c.func, tag):
+                    if nm in MUTATORS:
+                        out.append((c, nm))
+            out.sort(key=lambda cn: (cn[0].lineno, cn[0].col_offset))
+            return out
+
+        def dispatch(stmts: list[ast.stmt], tag: str) -> list[tuple[ast.Call, str]]:
+            out: list[tuple[ast.Call, str]] = []
             for s in stmts:
                 if isinstance(s, ast.If):
-                    t = s.test
-                    if isinstance(t, ast.Compare) and norm(t.left) == opvar and isinstance(t.ops[0], (ast.Eq, ast.NotEq)) \
-                            and isinstance(t.comparators[0], ast.Constant):
-                        eq = (t.comparators[0].value == tag) == isinstance(t.ops[0], ast.Eq)
-                        out += dispatch(s.body if eq else s.orelse, tag)
+                    out += mutator_calls(s.test, tag)
+                    d = _h.decide(s.test, opvar, tag)
+                    if d is not None:
+                        out += dispatch(s.body if d else s.orelse, tag)
                     else:
                         # a test that is not on the tag: both arms are possible
                         out += dispatch(s.body, tag) + dispatch(s.orelse, tag)
                 else:
-                    out += [c for c in ast.walk(s) if _wrapped_call(c, wrapped) in MUTATORS]
+                    out += mutator_calls(s, tag)
             return out
 
         for op, tags in logged_tags.items():
             for tag in sorted(tags):
                 calls = dispatch(loop.body, tag)
-                names_ = [_wrapped_call(c, wrapped) for c in calls]
+                names_ = [nm for _, nm in calls]
                 ok = names_ == [tag]
                 detail = "tag %r (logged by %s) -> wrapped %s" % (tag, op, names_)
                 if ok:
-                    c = calls[0]
+                    c = calls[0][0]
                     a0 = [norm(e) for e in c.args[0].elts] if c.args and isinstance(c.args[0], ast.Tuple) else []
                     ctxarg = norm(c.args[1]) if len(c.args) > 1 else ""
                     # one local alias assigned unconditionally per entry: g = Graph(self.store, context)
@@ -509,11 +537,13 @@ def run(repo: Repo, rep: Report) -> None:
                    node=sites[0][1])
 
 
+from vlib.core import layer as _layer  # noqa: E402
+
 _run_base = run
 
 
 def run(repo: Repo, rep: Report) -> None:  # noqa: F811
-    _run_base(repo, rep)
+    _layer(rep, _run_base, repo)
     mod = repo.mod("rdflib.plugins.stores.auditable")
     methods = mod.methods("AuditableStore")
     # ------------------------------------------------------------------ (j)
@@ -582,7 +612,7 @@ _run_base2 = run
 
 
 def run(repo: Repo, rep: Report) -> None:  # noqa: F811
-    _run_base2(repo, rep)
+    _layer(rep, _run_base2, repo)
     mod = repo.mod("rdflib.plugins.stores.auditable")
     CLS = "AuditableStore"
     methods = mod.methods(CLS)
@@ -643,20 +673,27 @@ def run(repo: Repo, rep: Report) -> None:  # noqa: F811
                 continue
             seen_keys.add(norm(comp))
             ok, why = False, ""
-            base = comp
-            while isinstance(base, ast.Attribute):
-                base = base.value
-            lp = _loop_binding(mod, f, c, base.id) if isinstance(base, ast.Name) else None
-            if lp is not None and any(_self_attr(x, wrapped) for x in ast.walk(lp.iter)):
-                ok, why = True, "the context the wrapped store itself reports for the quad (%s)" % norm(lp.iter)[:60]
+            # a local stands for what is assigned to it (every assignment, transitively): `cid = ctx.identifier` in the enumeration loop and the entry (.., cid, ..)
+            # is the same key as the entry (.., ctx.identifier, ..)
+            leaves = _h.leaf_definitions(f, comp)
+            derived: list[ast.expr] = []
+            reported: list[str] = []
+            for lf in leaves:
+                b = _h.chain_base(lf)
+                lp = _loop_binding(mod, f, lf if lf is not comp else c, b) if b is not None else None
+                if lp is not None and any(_self_attr(x, wrapped) for x in ast.walk(lp.iter)):
+                    reported.append(norm(lp.iter)[:60])
+                else:
+                    derived.append(lf)
+            if not derived:
+                ok, why = True, "the context the wrapped store itself reports for the quad (%s)" % "; ".join(sorted(set(reported)))
             elif ctor_refuses:
                 ok, why = True, "__init__ refuses a store that is not context aware"
             else:
-                dvals = [comp] + (_defs_of(f, comp.id) if isinstance(comp, ast.Name) else [])
                 # the tests a definition sits under count as consulted by it (`if ... and self.context_aware: key = ctx.identifier`)
-                tests = [p.test for v in dvals[1:] for p in mod.parents(v) if isinstance(p, ast.If)]
-                reads = any(flag_is_wrapped_stores(v) for v in dvals + tests)
-                none_arm = any(has_none_arm(v) for v in dvals)
+                tests = [p.test for v in derived if v is not comp for p in mod.parents(v) if isinstance(p, ast.If)]
+                reads = any(flag_is_wrapped_stores(v) for v in derived + tests)
+                none_arm = any(has_none_arm(v) for v in derived)
                 ok = reads and none_arm
                 why = "collapses to None when the wrapped store is not context aware" if ok else (
                     "the key's context component %s is the identifier of whatever graph the call came through, whether or not the wrapped store distinguishes graphs: "
@@ -842,3 +879,137 @@ def run(repo: Repo, rep: Report) -> None:  # noqa: F811
                        "graphs of the wrapped store are re-bound to this store before they leave" if not lk else
                        "%s hands out %s as the wrapped store made it: a graph bound to self.%s, so add/remove through it (ConjunctiveGraph.contexts()/get_graph()/quads(), "
                        "SPARQL CLEAR/DROP) are not logged and rollback() does not undo them" % (mname, ", ".join(lk), wrapped), node=n)
+
+
+# ---------------------------------------------------------------------------------------------------------------------
+# fourth layer: views that need a context-aware store (n), the undo log holds what the wrapped store reports, never the pattern (o)
+
+_run_base3 = run
+
+
+def run(repo: Repo, rep: Report) -> None:  # noqa: F811
+    _layer(rep, _run_base3, repo)
+    mod = repo.mod("rdflib.plugins.stores.auditable")
+    CLS = "AuditableStore"
+    methods = mod.methods(CLS)
+    log = rep.info["undo_log_attribute"]
+    wrapped = rep.info["wrapped_store_attribute"]
+    init = methods["__init__"]
+    store_param = init.args.args[1].arg
+    typed = repo.typed
+    FLAG = "context_aware"
+
+    # does __init__ copy the wrapped store's flag to the wrapper (self.context_aware = store.context_aware)?
+    copies_flag = any(
+        isinstance(n, ast.Assign) and any(_h.self_attr(t, FLAG) for t in n.targets) and isinstance(n.value, ast.Attribute) and n.value.attr == FLAG
+        and ((isinstance(n.value.value, ast.Name) and n.value.value.id == store_param) or _h.self_attr(n.value.value, wrapped))
+        for n in own_nodes(init))
+
+    def flag_reader(fn: ast.AST):
+        def is_flag(e: ast.AST, _depth: int = 0) -> bool:
+            if isinstance(e, ast.Attribute) and e.attr == FLAG:
+                return _h.self_attr(e.value, wrapped) or (copies_flag and _h.self_attr(e))
+            if isinstance(e, ast.Name) and _depth < 3:
+                ds = _defs_of(fn, e.id)
+                return bool(ds) and all(is_flag(d, _depth + 1) for d in ds)
+            return False
+        return is_flag
+
+    # ------------------------------------------------------------------ (n)
+    # ConjunctiveGraph.__init__ asserts store.context_aware (Dataset inherits it).  The wrapper takes ANY store (Memory-like stores that keep one set of triples,
+    # another AuditableStore over such a store), so an all-contexts view over the wrapped store may only be built where the flag is known to hold.
+    graph_mod = repo.mod("rdflib.graph")
+    need = {"rdflib.graph." + q for q in _h.classes_asserting(graph_mod, FLAG)}
+    if not need:
+        raise AnalysisError("no graph class whose __init__ asserts store.%s found in rdflib/graph.py (ConjunctiveGraph)" % FLAG)
+    for b in list(need):
+        need |= set(typed.subclasses(b))
+    short = {q.rsplit(".", 1)[-1] for q in need}
+    rep.rule("C18.n-all-contexts-view-only-over-a-context-aware-store",
+             "every construction of a graph class whose __init__ asserts store.context_aware (ConjunctiveGraph, Dataset) over the wrapped store or over the wrapper itself, in "
+             "any method of AuditableStore, is evaluated only where the wrapped store's context_aware flag is known to be true (an if/ternary/assert on the flag dominates "
+             "it); the wrapper accepts stores that are not context aware: inner = AuditableStore(SimpleMemory()); outer = AuditableStore(inner); "
+             "Graph(outer).add(t); outer.rollback() calls inner.remove(t, None), which without the guard builds ConjunctiveGraph(SimpleMemory) -> AssertionError, "
+             "the transaction is neither rolled back nor cleared", floor=1)
+
+    def over_wrapped(fn: ast.AST, e: ast.AST | None, _depth: int = 0) -> bool:
+        if e is None:
+            return False
+        if _h.self_attr(e, wrapped) or (isinstance(e, ast.Name) and e.id == "self"):
+            return True
+        if isinstance(e, ast.Name) and _depth < 3:
+            ds = _defs_of(fn, e.id)
+            return bool(ds) and any(over_wrapped(fn, d, _depth + 1) for d in ds)
+        return False
+
+    for mname, f in methods.items():
+        g = None
+        is_flag = flag_reader(f)
+        for c in own_nodes(f, include_nested=True):
+            if not isinstance(c, ast.Call):
+                continue
+            fn_ = c.func
+            if not ((isinstance(fn_, (ast.Name, ast.Attribute)) and typed.ref(mod.name, fn_) in need) or (isinstance(fn_, ast.Name) and fn_.id in short)
+                    or (isinstance(fn_, ast.Attribute) and fn_.attr in short and typed.ref(mod.name, fn_) is None)):
+                continue
+            st = c.args[0] if c.args else next((k.value for k in c.keywords if k.arg == "store"), None)
+            if not over_wrapped(f, st):
+                continue
+            if g is None:
+                g = CFG(f)
+            ok = _h.holds_at(mod, f, g, c, is_flag)
+            rep.ob("C18.n-all-contexts-view-only-over-a-context-aware-store", mod, "%s.%s" % (CLS, mname), c, ok,
+                   "reached only where the wrapped store is known to be context aware" if ok else
+                   "%s is built on a path on which the wrapped store may not be context aware: its __init__ asserts store.%s, so %s() over a store that keeps one set of "
+                   "triples (or over another AuditableStore over one - the call an outer rollback() issues) dies with AssertionError before anything is logged or removed"
+                   % (norm(c)[:60], FLAG, mname), node=c)
+
+    # ------------------------------------------------------------------ (o)
+    # remove() takes a PATTERN.  What a position of the pattern means is the wrapped store's business: None is a wildcard for every store, a REGEXTerm is one for the
+    # REGEXMatching store, ...  `None in [s, p, o]` therefore does not tell a pattern from a triple; the only description of what is about to be removed is what the wrapped
+    # store enumerates for the pattern.  So no component of the pattern parameter may flow into the triple positions of an undo entry.
+    rep.rule("C18.o-undo-entries-are-reported-triples-not-the-pattern",
+             "in every method of AuditableStore that takes a triple pattern (remove), the subject/predicate/object of every undo-log entry (cancelled or appended) are names "
+             "bound by a loop that enumerates the wrapped store, never the components of the pattern parameter: over REGEXMatching(Memory()), "
+             "remove((REGEXTerm('.*alice'), knows, bob), ctx) contains no None, an entry built from the parameters logs (REGEXTerm('.*alice'), knows, bob, ctx, 'add'), and rollback() "
+             "inserts the pattern itself as a triple while none of the triples the store removed comes back", floor=4)
+
+    def takes_pattern(mname: str, f: ast.FunctionDef) -> bool:
+        if len(f.args.args) < 2:
+            return False
+        if mname == "remove":
+            return True
+        a = f.args.args[1].annotation
+        return a is not None and "Pattern" in norm(a)
+
+    for mname, f in methods.items():
+        if not takes_pattern(mname, f):
+            continue
+        if mname == "remove" and not any(_is_log_call(c, log) for c in own_nodes(f)):
+            raise AnalysisError("AuditableStore.remove no longer updates the undo log self.%s" % log)
+        tainted = _h.pattern_tainted(f, f.args.args[1].arg)
+        for c in own_nodes(f):
+            if not (_is_log_call(c, log) and c.args):
+                continue
+            entry = c.args[0]
+            if not (isinstance(entry, ast.Tuple) and len(entry.elts) >= 4):
+                continue  # not the (s, p, o, ctx, tag) layout: C18.b reports it
+            bad = []
+            for pos in entry.elts[:3]:
+                names_ = [x for x in ast.walk(pos) if isinstance(x, ast.Name)]
+                if not names_:
+                    bad.append("%s is not a value the wrapped store reported" % norm(pos))
+                    continue
+                for x in names_:
+                    lp = _h.enclosing_binding_loop(mod, f, c, x.id)
+                    if lp is not None and any(_h.self_attr(y, wrapped) or (isinstance(y, ast.Call) and _h.self_attr(y.func) and y.func.attr in ("triples", "quads"))
+                                              for y in ast.walk(lp.iter)):
+                        continue
+                    if x.id in tainted:
+                        bad.append("%s is a component of the pattern parameter %s" % (x.id, f.args.args[1].arg))
+                    else:
+                        bad.append("%s is not bound by an enumeration of the wrapped store" % x.id)
+            rep.ob("C18.o-undo-entries-are-reported-triples-not-the-pattern", mod, "%s.%s" % (CLS, mname), c, not bad,
+                   "the entry's triple is one the wrapped store enumerated for the pattern" if not bad else
+                   "%s: the undo entry describes the pattern, not what the wrapped store removes for it - a term the wrapped store interprets itself (REGEXTerm of the "
+                   "REGEXMatching store) is logged as if it were the one triple removed, rollback() adds the pattern as a triple and restores nothing" % "; ".join(bad), node=c)
